@@ -579,6 +579,11 @@ theorem after_test (d : Program → Frame → St → Expr → Disp)
       rw [hl]
       simp only []
       rw [hb.vals, hb.blocks]
+      have hidle : ({ f0 with exprs := [] } : Frame) = f0 := by
+        have hi := hb.idle
+        cases f0 with
+        | mk exprs values blocks nb cu kind cid => simp at hi; subst hi; rfl
+      exact congrArg (fun f => ({ s' with frames := [f] } : State)) hidle
     have hst' : Static s { s' with frames := [f0] } :=
       ⟨hst.prog, hst.tl, hst.sl, hst.ia, hst.sa, fun hi ha => hst.quiet hi ha⟩
     rw [hp]
